@@ -68,7 +68,7 @@ var checks = map[string]*check{
 		Title: "Multiplexed gRPC broker routes each announced stream to its ID's listener",
 		Level: "model_checking",
 		Rule: "every sequence of 1 and 2 (thorough: 3) sequentially established brokered connections over (accept side, accept-first / dial-first, gap 0 / 1 s / 4.9 s) on the real multiplexed GRPCBroker " +
-			"(real yamux muxers, real gRPC), each followed by pings on the main and all earlier connections, under every schedule / timer order / select choice with <= d deviations; " +
+			"(real yamux muxers, real gRPC), each followed by pings on the main and all earlier connections, and (with-traffic parts) with such pings running concurrently with the establishment, under every schedule / timer order / select choice with <= d deviations; " +
 			"non-trivial = at least one decision point with >= 2 alternatives",
 		Assumptions: []string{
 			"establishments are strictly sequential, as the API documents",
@@ -79,6 +79,9 @@ var checks = map[string]*check{
 			{Name: "single", Kind: "explore", Scen: "grpcmux_seq", Inst: inst("single", "single"), Depths: depths([]int{2}, []int{2, 3}), Budget: budget(2*time.Minute, 10*time.Minute)},
 			{Name: "pairs", Kind: "explore", Scen: "grpcmux_seq", Inst: inst("pairs", "pairs"), Depths: depths([]int{1}, []int{1, 2}), Budget: budget(3*time.Minute, 20*time.Minute)},
 			{Name: "triples", Kind: "explore", Scen: "grpcmux_seq", Inst: inst("none", "triples"), Depths: depths([]int{0}, []int{1}), Budget: budget(time.Minute, 10*time.Minute)},
+			// establishments interleaved with traffic on the main and on earlier brokered connections
+			{Name: "with-traffic-single", Kind: "explore", Scen: "grpcmux_seq", Inst: inst("traffic-single", "traffic-single"), Depths: depths([]int{2}, []int{2, 3}), Budget: budget(2*time.Minute, 10*time.Minute)},
+			{Name: "with-traffic-pairs", Kind: "explore", Scen: "grpcmux_seq", Inst: inst("traffic-pairs", "traffic-pairs"), Depths: depths([]int{1}, []int{1, 2}), Budget: budget(3*time.Minute, 15*time.Minute)},
 			{Name: "conformance", Kind: "conform", Scen: "grpcmux_seq"},
 		},
 	},
